@@ -324,7 +324,7 @@ tzm_find_zn(const char *zn, size_t zz)
 	char *restrict p = zns;
 	const char *const ep = zns + znz;
 
-	for (; p < ep && *p && strncmp(p, zn, zz); p += strlen(p), p++);
+	for (; p < ep && *p && (strncmp(p, zn, zz) || p[zz]); p += strlen(p), p++);
 	if (*p) {
 		/* found it, yay */
 		return p - zns;
